@@ -291,6 +291,26 @@ func (cr *caseRun) dataset(f *hdf5.File, d *hdf5.Dataset) {
 			_, err := d.ReadHyperslab(&hdf5.HyperslabSelection{Start: st2, Count: ct2, Stride: sr2})
 			return err
 		})
+		// selections sized from the (possibly altered) dimensions of the header: the whole extent, and the whole last row
+		zero := make([]uint64, len(dims))
+		all := append([]uint64(nil), dims...)
+		cr.guard("Dataset.ReadSlice(whole)", func() error { _, err := d.ReadSlice(zero, all); return err })
+		rowStart := make([]uint64, len(dims))
+		rowCount := make([]uint64, len(dims))
+		for i, n := range dims {
+			if i == len(dims)-1 {
+				rowCount[i] = n
+			} else {
+				rowCount[i] = 1
+				if n > 0 {
+					rowStart[i] = n - 1
+				}
+			}
+		}
+		cr.guard("Dataset.ReadHyperslab(last row)", func() error {
+			_, err := d.ReadHyperslab(&hdf5.HyperslabSelection{Start: rowStart, Count: rowCount})
+			return err
+		})
 	}
 	var it *hdf5.ChunkIterator
 	cr.guard("Dataset.ChunkIterator", func() error {
